@@ -3,6 +3,7 @@ pub mod c03;
 pub mod c05;
 pub mod c06;
 pub mod c08;
+pub mod c10;
 pub mod c11;
 pub mod c14;
 pub mod common;
@@ -17,6 +18,7 @@ pub fn run(prop: &str, tier: Tier, seed: u64) -> i32 {
         "C05" => c05::run(tier, seed),
         "C06" => c06::run(tier, seed),
         "C08" => c08::run(tier, seed),
+        "C10" => c10::run(tier, seed),
         "C11" => c11::run(tier, seed),
         "C14" => c14::run(tier, seed),
         _ => {
@@ -41,6 +43,7 @@ pub fn replay(prop: &str, path: &str) -> i32 {
         "C05" => c05::replay(&doc),
         "C06" => c06::replay(&doc),
         "C08" => c08::replay(&doc),
+        "C10" => c10::replay(&doc),
         "C11" => c11::replay(&doc),
         "C14" => c14::replay(&doc),
         _ => 2,
